@@ -26,14 +26,24 @@ def external_cases(pool):
             texts.append(("ext:input-elem/" + tt, 'DIM A%s(1)\r\nINPUT A%s(1)\r\nPRINT "ok"\r\n' % (sf, sf), n + "\r\n"))
             if "e" not in n and "d" not in n:
                 texts.append(("ext:read/" + tt, 'DATA %s\r\nREAD T%s\r\nPRINT "ok"\r\n' % (n, sf), ""))
+            # into a field of a record and of an element of an array of records (fresh: never assigned before)
+            fn = "F" + tt
+            typ = "TYPE NUMS\r\n  FI AS INTEGER\r\n  FL AS LONG\r\n  FS AS SINGLE\r\n  FD AS DOUBLE\r\nEND TYPE\r\n"
+            texts.append(("ext:val-field/" + tt, typ + 'DIM R AS NUMS\r\nR.%s = VAL("%s")\r\nPRINT "ok"\r\n' % (fn, n), ""))
+            texts.append(("ext:input-field/" + tt, typ + 'DIM R AS NUMS\r\nINPUT R.%s\r\nPRINT "ok"\r\n' % fn, n + "\r\n"))
+            texts.append(("ext:input-elem-field/" + tt, typ + 'DIM RA(2) AS NUMS\r\nINPUT RA(1).%s\r\nPRINT "ok"\r\n' % fn, n + "\r\n"))
+            if "e" not in n and "d" not in n:
+                texts.append(("ext:read-field/" + tt, typ + 'DATA %s\r\nDIM R AS NUMS\r\nREAD R.%s\r\nPRINT "ok"\r\n' % (n, fn), ""))
+                texts.append(("ext:read-elem/" + tt, 'DATA %s\r\nDIM A%s(2)\r\nREAD A%s(1)\r\nPRINT "ok"\r\n' % (n, sf, sf), ""))
             texts.append(("ext:val-byval/" + tt, 'P VAL("%s")\r\nPRINT "ok"\r\nSUB P(X%s)\r\nY%s = X%s\r\nEND SUB\r\n' % (n, sf, sf, sf), ""))
     # floating point results beyond the range of their type (built by repeated multiplication: no exponent literals)
     for sf, n in (("!", 45), ("#", 320)):
         grow = 'A%s = 10\r\nFOR I%% = 1 TO %d\r\n  A%s = A%s * 10\r\nNEXT\r\n' % (sf, n, sf, sf)
         big = 'A%s = 10\r\nFOR I%% = 1 TO %d\r\n  A%s = A%s * 10\r\nNEXT\r\n' % (sf, n - 8, sf, sf)
         texts.append(("ext:float-overflow/mul" + sf, grow + 'PRINT "ok"\r\n', ""))
-        for op in ("B%s = A%s + A%s", "B%s = A%s * A%s", "B%s = 0 - A%s - A%s", "B%s = A%s / .0000001 + 0 * A%s"):
-            texts.append(("ext:float-overflow/op" + sf, big + (op % (sf, sf, sf)) + '\r\nPRINT "ok"\r\n', ""))
+        for op in ("B%s = A%s + A%s", "B%s = A%s * A%s", "B%s = 0 - A%s - A%s", "B%s = A%s / .0000001 + 0 * A%s", "B%s = A%s / .0000001",
+                   "C%s = .0000001\r\nB%s = A%s / C%s", "B%s = -A%s / .0000001", "B%s = A%s * 100000000"):
+            texts.append(("ext:float-overflow/op" + sf, big + (op % ((sf,) * op.count("%s"))) + '\r\nPRINT "ok"\r\n', ""))
     texts.append(("ext:float-overflow/mixed", 'A# = 10\r\nFOR I% = 1 TO 60\r\n  A# = A# * 10\r\nNEXT\r\nB! = A#\r\nC! = 1\r\nC! = C! * A#\r\nPRINT "ok"\r\n', ""))
     reqs = [{"op": "run", "text": t, "stdin": si, "budget": 100000, "dump_final": True, "dumps": True, "max_dumps": 20} for _, t, si in texts]
     resps = pool.map(reqs, timeout=30.0)
